@@ -110,18 +110,35 @@ static T mc_lattice(std::vector<int> const& ks, std::vector<T> const& weights, T
     std::size_t n = ks.size();
     auto bin_of = [](int k, T y) { return y < T(k) / T(4) ? 0 : 1; };
     auto width = [](int k, int b) { return b == 0 ? T(k) / T(4) : T(1) - T(k) / T(4); };
-    auto map = [&](std::size_t ch, std::vector<T> const& r, std::vector<T>& co, std::vector<std::size_t> const&, std::vector<T>& de, hep::multi_channel_map) {
-        int k = ks[ch];
-        T u = r[0];
-        // inverse CDF of the two-bin grid [0, k/4, 1]
-        T pos = u * T(2);
-        int b = pos < T(1) ? 0 : 1;
-        T frac = pos - T(b);
-        T left = b == 0 ? T() : T(k) / T(4);
-        co[0] = left + frac * width(k, b);
-        for (std::size_t j = 0; j != n; ++j) de[j] = jac / (T(2) * width(ks[j], bin_of(ks[j], co[0]))); // common jacobian factor in all densities
-        return jac;
+    // a map object with state of its own (as a phase-space generator has): the densities are worked out together with the coordinates, kept
+    // in the object and handed out when they are asked for
+    struct caching_map
+    {
+        std::vector<int> ks;
+        T jac;
+        std::vector<T> kept;
+        static T width(int k, int b) { return b == 0 ? T(k) / T(4) : T(1) - T(k) / T(4); }
+        T operator()(std::size_t ch, std::vector<T> const& r, std::vector<T>& co, std::vector<std::size_t> const&, std::vector<T>& de, hep::multi_channel_map action)
+        {
+            if (action == hep::multi_channel_map::calculate_densities)
+            {
+                for (std::size_t j = 0; j != de.size(); ++j) de[j] = j < kept.size() ? kept[j] : T();
+                return jac;
+            }
+            int k = ks[ch];
+            T u = r[0];
+            // inverse CDF of the two-bin grid [0, k/4, 1]
+            T pos = u * T(2);
+            int b = pos < T(1) ? 0 : 1;
+            T frac = pos - T(b);
+            T left = b == 0 ? T() : T(k) / T(4);
+            co[0] = left + frac * width(k, b);
+            kept.assign(ks.size(), T());
+            for (std::size_t j = 0; j != ks.size(); ++j) kept[j] = jac / (T(2) * width(ks[j], co[0] < T(ks[j]) / T(4) ? 0 : 1)); // common jacobian factor in all densities
+            return jac;
+        }
     };
+    caching_map map{ks, jac, std::vector<T>()};
     auto fn = [&](hep::multi_channel_point<T> const& p) {
         T y = p.coordinates()[0];
         return f == f_one ? T(1) : (f == f_x0 ? y : (y < T(0.25) ? T(1) : T()));
